@@ -324,6 +324,7 @@ func c17Gen(rng *gen.Rng, population string) *c17Hist {
 		}
 	}
 	// some files exist before the first script starts, created by something else than write()
+	zeroByte := []string{}
 	if rng.Chance(30) {
 		for k := rng.Range(1, 2); k > 0; k-- {
 			p := rng.Pick(paths)
@@ -341,9 +342,21 @@ func c17Gen(rng *gen.Rng, population string) *c17Hist {
 			}
 			if rng.Chance(15) {
 				c = "" // a file of no bytes at all (touch, : > f): write() never makes one
+				zeroByte = append(zeroByte, p)
 			}
 			h.Ops = append(h.Ops, c17Op{Kind: "ext-create", Path: p, Content: c})
 			files[p] = true
+		}
+		// a file of no bytes is read by a piece of code that has just read a file with content
+		// (the same function, the same loop body): what it returns is the empty string
+		for _, z := range zeroByte {
+			for _, q := range paths {
+				if files[q] && q != z {
+					rd := rng.Pick([]string{"shared", "shared", "funcparam", "direct"})
+					h.Ops = append(h.Ops, c17Op{Kind: "read", Path: q, Render: rd, POrigin: "literal"}, c17Op{Kind: "read", Path: z, Render: rd, POrigin: "literal"})
+					break
+				}
+			}
 		}
 	}
 	n := rng.Range(1, 25)
